@@ -62,7 +62,41 @@ def gen_cases(rng, tier):
         cases.append({'lead': rng.choice([0, 0, 0, 2, 5]), 'lead_disp': rng.random() < 0.5, 'empty_other': rng.choice([None, None, None, 'list', 'tuple', 'set']),
                       'species': species, 'ref': sorted(ref), 'mode': mode, 'coll': rng.choice(['str', 'list', 'set', 'frozenset', 'tuple', 'keys']),
                       'objs': rng.choice(['Element', 'Species']), 'coords': coords, 'extra': extra})
+    # a rigid framework with atoms on and just inside the cell faces, creeping by about 1e-6 of a cell per frame (oracle only: not on the grid)
+    for _ in range({'quick': 12, 'thorough': 200, 'search': 6}[tier]):
+        nfw, nli, T = rng.randint(2, 5), rng.randint(1, 3), rng.randint(4, 12)
+        edge = lambda: rng.choice([0.0, 1.0 - rng.randint(1, 9) * 1e-6, rng.randint(1, 9) * 1e-6, 1.0 - rng.randint(1, 9) * 1e-7, rng.random()])
+        fw = [[edge() for _k in range(3)] for _a in range(nfw)]
+        vel = [rng.choice([-1, 1]) * rng.uniform(0.3e-6, 2e-6) for _k in range(3)]
+        li = [[rng.random() for _k in range(3)] for _a in range(nli)]
+        coords = []
+        for t in range(T):
+            li = [[x + rng.uniform(-0.02, 0.02) for x in a] for a in li]
+            coords.append([[a[k] + vel[k] * t for k in range(3)] for a in fw] + [[a[k] + vel[k] * t for k in range(3)] for a in li])
+        cases.append({'kind': 'nearface', 'species': ['S'] * nfw + ['Li'] * nli, 'ref': ['S'], 'mode': rng.choice(['fixed', 'floating']), 'coll': 'list', 'objs': 'Element',
+                      'fcoords': coords, 'shift': [rng.uniform(-0.4, 0.4) for _k in range(3)]})
     return cases
+
+
+def _impl_nearface(case):
+    from gemdat.trajectory import Trajectory
+    from pymatgen.core import Element
+    sp = [Element(s) for s in case['species']]
+    lat = synth.make_lattice([[6, 0, 0], [1, 7, 0], [0, 2, 8]])
+    kw = _kw(case)
+    wrapd = lambda d: np.abs(((d + 0.5) % 1) - 0.5).max()
+    c0 = np.array(case['fcoords'], dtype=float)
+    mask = np.array([s in case['ref'] for s in case['species']])
+    out = {}
+    for tag, c in (('asis', c0), ('moved', c0 + np.array(case['shift'])[None, None, :])):
+        t = Trajectory(species=sp, coords=c, lattice=lat, time_step=2e-15, metadata={'temperature': 300})
+        cor = np.array(t.apply_drift_correction(**kw).positions)
+        # the framework is rigid: after the correction every framework atom stays where it was in the first frame
+        out['resid_' + tag] = float(wrapd(cor[:, mask] - cor[:1, mask]))
+        out['first_' + tag] = float(wrapd(cor[0] - c[0]))
+        out['cor_' + tag] = cor
+    out['rigid'] = float(wrapd((out.pop('cor_moved') - np.array(case['shift'])[None, None, :]) - out.pop('cor_asis')))
+    return out
 
 
 def _spec_arg(names, coll):
@@ -109,6 +143,8 @@ def _traj(case, coords):
 
 
 def impl(case):
+    if case.get('kind') == 'nearface':
+        return _impl_nearface(case)
     t = _traj(case, case['coords'])
     kw = _kw(case)
     out = {}
@@ -146,6 +182,17 @@ def impl(case):
 
 def oracle(case, out):
     fs = synth.inputs_clause(out, 'apply_drift_correction')
+    if case.get('kind') == 'nearface':
+        if 'rigid' not in out:
+            return [('c13/harness-error', f"{out.get('error')}: {out.get('msg')} {out.get('tb', '')[-400:]}")]
+        for tag in ('asis', 'moved'):
+            if not out['resid_' + tag] <= 1e-9:
+                fs.append(('drift/reference-atoms-move', f'atoms of a rigid framework near the cell faces move by {out["resid_" + tag]} of a cell after the correction ({tag})'))
+            if not out['first_' + tag] <= 1e-9:
+                fs.append(('drift/first-frame-changed', f'the first frame changed by {out["first_" + tag]} ({tag})'))
+        if not out['rigid'] <= 1e-9:
+            fs.append(('drift/rigid-translation-dependence', f'a rigid translation of all atoms changes the corrected positions by {out["rigid"]} (framework near the faces)'))
+        return fs
     if out.get('raised'):
         return [('drift/floating-rejects-species-objects', f'drift({_kw(case)}) raised {out["raised"]} for {case["objs"]} species objects: {out.get("msg")}')]
     if 'drift' not in out:
@@ -173,7 +220,7 @@ def oracle(case, out):
 
 
 def coq_term(case, out):
-    if 'drift' not in out:
+    if 'drift' not in out or case.get('kind') == 'nearface':
         return None
     mask = [s in case['ref'] for s in case['species']]
     n = sum(mask)
@@ -194,10 +241,14 @@ def coq_term(case, out):
 
 
 def nontrivial(case, out):
+    if case.get('kind') == 'nearface':
+        return 'rigid' in out
     return sum(1 for s in case['species'] if s in case['ref']) >= 2 and 'drift' in out and bool(np.any(np.array(out['drift'])))
 
 
 def classify(case, out):
+    if case.get('kind') == 'nearface':
+        return ['kind=nearface', f'mode={case["mode"]}']
     tags = [f'mode={case["mode"]}', f'coll={case["coll"]}', f'objs={case["objs"]}']
     if {'S', 'Si'} <= set(case['species']):
         tags.append('prefix-symbols-S-Si')
@@ -207,4 +258,6 @@ def classify(case, out):
 
 
 def sample(case, out):
+    if case.get('kind') == 'nearface':
+        return {'kind': 'nearface', 'species': case['species'], 'resid': out.get('resid_asis'), 'rigid': out.get('rigid')}
     return {'species': case['species'], 'kwargs': repr(_kw(case)), 'objs': case['objs'], 'drift': out.get('drift', [])[:3]}
